@@ -25,6 +25,7 @@ import (
 	"bufio"
 	"encoding/json"
 	"fmt"
+	"io"
 	"os"
 	"sort"
 	"strconv"
@@ -34,6 +35,7 @@ import (
 
 	"github.com/tinode/chat/server/auth"
 	"github.com/tinode/chat/server/db/memverif"
+	"github.com/tinode/chat/server/logs"
 	"github.com/tinode/chat/server/store"
 	"github.com/tinode/chat/server/store/types"
 )
@@ -365,6 +367,10 @@ func (sc *cScn) finish() {
 
 func TestVerifCall(t *testing.T) {
 	vInitServer(t)
+	// The server logs from inside the handlers. A topic goroutine blocked in the write(2) of a log line
+	// (stderr is a pipe to the check) is in state "syscall", which vQuiescent counts as parked: under load
+	// a state dump was once taken in the middle of maybeEndCallInProgress. No log output -> no such window.
+	logs.Init(io.Discard, "stdFlags")
 	fin, err := os.Open(os.Getenv("VERIF_IN"))
 	if err != nil {
 		t.Fatal(err)
